@@ -393,7 +393,7 @@ def c14_program(rng):
         body += ["let j = o.to_json();", "println(j);", f"let back: {objty} = j.parse_json();", "println(back);"]
         feats.append("json")
     if rng.random() < 0.5:
-        # a cast with several ill-typed fields: the error message names a field (finding V33)
+        # a cast with several ill-typed fields: the error message names a field (finding V35)
         bad = rng.sample(names, min(len(names), rng.randint(1, 3)))
         ty = "{ " + ", ".join(f"{n}: {'null' if n in bad else 'int'}" for n in names) + " }"
         src = "{" + ", ".join(f'\\"{n}\\": 1' for n in names) + "}"
